@@ -195,6 +195,14 @@ def _get_region_params(region, shape_template, precision=8):
                 value = value_str[:-1]
 
         elif isinstance(value, SkyCoord):
+            # a DS9 frame name (fk5/j2000, fk4/b1950, ecliptic) denotes the
+            # frame with its default attributes: a coordinate with another
+            # equinox or obstime must be brought there before its numbers
+            # are written under that name
+            default_frame = value.frame.__class__()
+            if not value.frame.is_equivalent_frame(default_frame):
+                value = value.transform_to(default_frame,
+                                           merge_attributes=False)
             val = value.to_string(precision=precision)
             # polygon region has multiple SkyCoord
             value = ' '.join(val) if not value.isscalar else val
